@@ -12,6 +12,12 @@ Line protocol of the C10 model driver (all strings hex-encoded, `-` = empty):
 * `fi <success 0|1> <nAllowed> <name>* <nDiags> <diag>* <nDirs> <directive>*`
                                             → `<n> <diag>*`    (`filterIgnored ∘ success?`)
 
+* `u1k <nfiles> <nlines> <nDirs> <directive>*` → `<n> (<file> <line>)*`  the declarations of the
+                                                      synthetic package (files `f<i>.go`, one unexported
+                                                      declaration on each of the lines 3 … nlines+2) that
+                                                      the U1000 graph marks as used because of the
+                                                      directives (`u1000Marked`)
+
 `<diag>` = `<file> <line> <col> <cat> <msg> <sev e|w|i>`,
 `<directive>` = `<cmd> <nargs> <arg>* <dfile> <dline> <dcol> <nfile> <nline> <ncol>`.
 -/
@@ -118,6 +124,19 @@ def step (line : String) : String :=
       let al : String → Bool := fun c => allowed.contains c
       let ds := if succ = 1 then success al diags else diags
       showDiags (filterIgnored ds dirs al)
+    | none => "bad-op"
+  | "u1k" :: rest =>
+    match (do
+      let (nfiles, ts) ← pNat rest
+      let (nlines, ts) ← pNat ts
+      let (dirs, ts) ← pList pDirective ts
+      if ts ≠ [] then none else
+      pure (nfiles, nlines, dirs)) with
+    | some (nfiles, nlines, dirs) =>
+      let objs : List (String × Nat) :=
+        (List.range nfiles).flatMap fun f => (List.range nlines).map fun l => (s!"f{f}.go", l + 3)
+      let m := u1000Marked dirs objs
+      " ".intercalate (toString m.length :: m.map fun o => s!"{hexEncode o.1} {o.2}")
     | none => "bad-op"
   | _ => "bad-op"
 
